@@ -1,11 +1,81 @@
 import TdVerif.Sexp
+import TdVerif.Model.C16NonTensor
 
 namespace TdVerif.Drive
-open TdVerif Sexp
+open TdVerif Sexp TdVerif.C16 TdVerif.C16.NT
+
+namespace C16D
+
+/-- `(sh <obj> (shape…))` | `(st <dim> member…)` -/
+partial def nt? : Sexp → Option (NT String)
+  | .list [.atom "sh", .atom o, .list s] => (nats? s).map (fun s => .shared o s)
+  | .list (.atom "st" :: d :: ms) => do
+      let d ← asNat? d
+      let ms ← ms.mapM nt?
+      pure (.stack ms d)
+  | _ => none
+
+partial def ntToSexp : NT String → Sexp
+  | .shared o s => .list [.atom "sh", .atom o, ofNats s]
+  | .stack ms d => .list (.atom "st" :: ofNat d :: ms.map ntToSexp)
+
+partial def nestToSexp : Nest String → Sexp
+  | .leaf o => .atom o
+  | .list l => .list (.atom "l" :: l.map nestToSexp)
+
+def optInt? : Sexp → Option (Option Int) := asOptInt?
+
+def ix? : Sexp → Option Ix
+  | .atom "none" => some .none
+  | .atom "ell" => some .ell
+  | .list [.atom "int", i] => (asInt? i).map .int
+  | .list [.atom "slice", a, b, c] => do pure (.slice (← optInt? a) (← optInt? b) (← optInt? c))
+  | .list (.atom "list" :: l) => (ints? l).map .list
+  | _ => none
+
+def ierrToSexp : IErr → Sexp
+  | .index => .atom "index" | .empty => .atom "empty" | .shape => .atom "shape"
+
+def resToSexp : Except IErr (NT String) → Sexp
+  | .ok r => tagged "ok" [ntToSexp r]
+  | .error e => tagged "err" [ierrToSexp e]
+
+def flatten (r : NT String) : Sexp :=
+  .list ((coords (shape r)).map (fun c => match getAt r c with | some o => .atom o | none => .atom "OUT"))
+
+end C16D
+open C16D
 
 /-- line-protocol handler for C16: commands are named `c16.<something>` -/
 def handleC16 (cmd : String) (args : List Sexp) : Option Sexp :=
   match cmd, args with
+  | "c16.info", [r] => do
+      let r ← nt? r
+      pure (.list [ofNats (shape r), .atom (if wf r then "wf" else "illformed"), flatten r, nestToSexp (tolist r)])
+  | "c16.getitem", [r, .list ix] => do
+      let r ← nt? r
+      let ix ← ix.mapM ix?
+      pure (match getitem r ix with
+        | .ok r' => tagged "ok" [ntToSexp r', ofNats (shape r'), flatten r']
+        | .error e => tagged "err" [ierrToSexp e])
+  | "c16.setitem", [r, .list ix, v] => do
+      let r ← nt? r
+      let ix ← ix.mapM ix?
+      let v ← nt? v
+      pure (match setitem r ix v with
+        | .ok r' => tagged "ok" [ntToSexp r', flatten r']
+        | .error e => tagged "err" [ierrToSexp e])
+  | "c16.unbind", [r, d] => do
+      let r ← nt? r
+      pure (.list ((unbind r (← asNat? d)).map ntToSexp))
+  | "c16.stack", [cap, .list l, d] => do
+      let l ← l.mapM nt?
+      let cap := match cap with | .atom "true" => true | _ => false
+      pure (ntToSexp (stackNT cap l (← asNat? d)))
+  | "c16.tostack", [r] => do pure (ntToSexp (maybeToStack (← nt? r)))
+  | "c16.unsqueeze", [r, d] => do pure (ntToSexp (unsqueeze (← nt? r) (← asNat? d)))
+  | "c16.squeeze", [r, d] => do pure (ntToSexp (squeeze (← nt? r) (← asNat? d)))
+  | "c16.permute", [r, .list p] => do pure (ntToSexp (permute (← nt? r) (← nats? p)))
   | _, _ => none
 
 end TdVerif.Drive
